@@ -95,7 +95,17 @@ Definition judge_one (c : caseC) (d : dval) (go : nat * bytes) : nat :=
     else v_violation
   | SOut o (f :: _) =>
     if loaded && Nat.eqb (fst go) 0 && out_ok c (snd go) o then (match a with 1 => v_drift | _ => v_agree end)
-    else match a with 0 => v_known f | 3 => v_unmodelled | _ => v_drift end
+    else match a with
+         | 0 => v_known f
+         | 3 => v_unmodelled
+         | _ =>
+           (* the listed deviation does not show in this case (the model of the code as it is prints what S
+              prescribes), so the case is inside the property's domain: the implementation contradicts S *)
+           match model_out false c d with
+           | OOk mo => if out_ok c mo o then v_violation else v_drift
+           | _ => v_drift
+           end
+         end
   | SError _ =>
     if loaded && Nat.eqb (fst go) 1 then (match a with 1 => v_drift | _ => v_agree end) else v_violation
   | SOffDomain | SNoFuel => plain
